@@ -137,7 +137,13 @@ func runReasmImpl(c RCase) (obs []opObs, panicMsg string) {
 		case "nil":
 			r.PushMessage(nil)
 		case "raw":
-			ret = r.Push(auparse.AuditMessageType(op.Typ), []byte(fmt.Sprintf("audit(1500000000.123:%d): vid=%d", op.Seq, op.ID)))
+			buf := []byte(fmt.Sprintf("audit(1500000000.123:%d): vid=%d", op.Seq, op.ID))
+			ret = r.Push(auparse.AuditMessageType(op.Typ), buf)
+			// the caller's buffer belongs to the caller again once Push has returned (receive loops reuse
+			// it): what is delivered later must be what was pushed, not what the buffer holds by then
+			for i := range buf {
+				buf[i] = 'x'
+			}
 			if ret != nil {
 				return obs, "valid raw message rejected: " + ret.Error()
 			}
